@@ -1,5 +1,6 @@
 import CohdlVerif.Model.C13Types
 import CohdlVerif.Model.C13Views
+import CohdlVerif.Model.C13Session
 /-
   C13 - line protocol of the model driver.
 
@@ -14,6 +15,8 @@ import CohdlVerif.Model.C13Views
      answer: `VT cells resolved` (positions joined by `.`) or `reject@<index of failing op>`
   `wr W BITS ( OP* = BITS / )*`   writes through views of one root (bits least significant first)
      answer: `status,status,..|BITS`
+  `sess VT BITS STEP / STEP / ...`   STEP = v P OP | w T BITS | cs T S | cn T S (z|s) | x
+     answer per step `status:ROOTBITS:shown,shown,..` joined by `;`  (`-` = rejected view slot)
 -/
 namespace CohdlVerif.C13
 
@@ -182,10 +185,44 @@ def handleWrite (toks : List String) : String :=
     | _, _ => "bad-op"
   | _ => "bad-op"
 
+def parseStep (toks : List String) : Option Step :=
+  match toks with
+  | ["v", p, op] => match p.toNat?, parseOp op with
+    | some p, some op => some (.view p op)
+    | _, _ => none
+  | ["w", t, bits] => match t.toNat?, parseBits bits with
+    | some t, some b => some (.wr t b)
+    | _, _ => none
+  | ["cs", t, s] => match t.toNat?, s.toNat? with
+    | some t, some s => some (.copySeq t s)
+    | _, _ => none
+  | ["cn", t, s, m] => match t.toNat?, s.toNat? with
+    | some t, some s => if m = "z" then some (.copySnap t s false) else if m = "s" then some (.copySnap t s true) else none
+    | _, _ => none
+  | ["x"] => some .rejected
+  | _ => none
+
+def showSess (σ : Sess) : String :=
+  showBits σ.store ++ ":" ++ joinWith "," (σ.shown.map (fun o => match o with | some b => showBits b | none => "-"))
+
+def handleSess (toks : List String) : String :=
+  match toks with
+  | vt :: init :: rest =>
+    match parseVT vt, parseBits init, ((splitOn "/" rest).filter (· ≠ [])).mapM parseStep with
+    | some vt, some init, some steps =>
+      if init.isEmpty then "bad-op" else
+      let (_, out) := steps.foldl (fun (acc : Sess × List String) st =>
+        let (σ', ok) := acc.1.step st
+        (σ', acc.2 ++ [(if ok then "ok" else "reject") ++ ":" ++ showSess σ'])) (Sess.init vt init, [])
+      joinWith ";" out
+    | _, _, _ => "bad-op"
+  | _ => "bad-op"
+
 def handle : List String → String
   | "hist" :: toks => handleHist toks
   | "view" :: toks => handleView toks
   | "wr" :: toks => handleWrite toks
+  | "sess" :: toks => handleSess toks
   | _ => "bad-op"
 
 end CohdlVerif.C13
